@@ -1715,6 +1715,8 @@ def main():
     rs2coq_loop.main(os.path.dirname(dst))
     import rs2coq_adapters       # part 9: the bundled adapters -> Gen/AdaptersGen.v
     rs2coq_adapters.main(os.path.dirname(dst))
+    import rs2coq_query          # part 13: read side of the RBAC / management API -> Gen/QueryGen.v
+    rs2coq_query.main(os.path.dirname(dst))
     import rs2coq_rm             # part 11: DefaultRoleManager + bounded BFS -> Gen/RoleManagerGen.v
     rs2coq_rm.main(os.path.dirname(dst))
 
